@@ -10,13 +10,14 @@ from ..gen_lean import Def
 from ..runner import Corr, Failure
 from . import isect_common as ic
 
-LEAN_MODULES = ['SvgVerif.Props.C12']
+LEAN_MODULES = ['SvgVerif.Props.C12', 'SvgVerif.Props.C12Subdiv']
 
 ASSUMPTIONS = [
     'np.roots is an oracle: completeness of bezier_by_line_intersections is proved relative to "the list returned by polyroots01 contains the '
     'curve parameter of the crossing" (the filter half of that contract is C19); exact crossing counts are sampled against Sturm sequences',
-    'no completeness theorem for the subdivision solver bezier_intersections (Bezier-Bezier and generic arc pairs): sampled on constructed '
-    'crossings; two recorded findings (F9 zero-width boxes, F33 duplicate reports)',
+    'bezier_intersections: completeness is proved in the form target_handled (a chain of cells with overlapping boxes ends reported, suppressed by a '
+    'reported point within tol, or shadowed by a handled pair sharing a sub-curve); that the cells around a transversal crossing HAVE overlapping '
+    'boxes of positive width is geometry that is assumed (it fails for axis-parallel straight Beziers: F9), and exactly-once is false (F33)',
     'Arc.intersect(Line) closed forms, point_to_t and the circle-circle case split: sampled on constructed crossings only',
 ]
 
